@@ -102,3 +102,104 @@ Proof.
   unfold NUMBER. destruct positional as [|[s|m|c| |] rest]; try discriminate.
   intros H. injection H as <-. eauto.
 Qed.
+
+(* ---------- the model's own float parser stays in the f64 range for literals of at most 19 bytes ---------- *)
+Lemma is_digit_bounds c : is_digit c = true -> 48 <= c <= 57.
+Proof. unfold is_digit. intros H. apply andb_prop in H as [H1 H2]. apply N.leb_le in H1, H2. lia. Qed.
+
+Lemma fold_digits_lt s : forall acc,
+  forallb is_digit s = true ->
+  fold_left (fun a c => a * 10 + (c - 48)) s acc < (acc + 1) * 10 ^ N.of_nat (length s).
+Proof.
+  induction s as [|c r IH]; intros acc Hd; cbn [fold_left length forallb] in *.
+  - change (N.of_nat 0) with 0. rewrite N.pow_0_r. lia.
+  - apply andb_prop in Hd as [Hc Hr]. apply is_digit_bounds in Hc.
+    specialize (IH (acc * 10 + (c - 48)) Hr).
+    rewrite Nat2N.inj_succ, N.pow_succ_r'.
+    assert (acc * 10 + (c - 48) + 1 <= (acc + 1) * 10) by lia.
+    assert ((acc * 10 + (c - 48) + 1) * 10 ^ N.of_nat (length r) <= (acc + 1) * 10 * 10 ^ N.of_nat (length r))
+      by (apply N.mul_le_mono_r; assumption).
+    lia.
+Qed.
+
+Lemma digits_val_lt s : forallb is_digit s = true -> digits_val s < 10 ^ N.of_nat (length s).
+Proof. intros H. pose proof (fold_digits_lt s 0 H) as H'. unfold digits_val. lia. Qed.
+
+Lemma digits_val_u64 s : forallb is_digit s = true -> (length s <= 19)%nat -> digits_val s <= u64_max.
+Proof.
+  intros Hd Hl. pose proof (digits_val_lt s Hd) as H.
+  assert (10 ^ N.of_nat (length s) <= 10 ^ 19) by (apply N.pow_le_mono_r; lia).
+  assert (10 ^ 19 <= u64_max) by (vm_compute; discriminate). lia.
+Qed.
+
+Lemma strip_leading_zeros_digits s : forallb is_digit s = true -> forallb is_digit (strip_leading_zeros s) = true.
+Proof.
+  induction s as [|c r IH]; [reflexivity|]. intros H. cbn [forallb] in H. apply andb_prop in H as [Hc Hr].
+  cbn [strip_leading_zeros]. destruct c as [|p]; [cbn [forallb]; now rewrite Hc, Hr|].
+  do 6 (destruct p as [p|p|]; try (cbn [forallb]; now rewrite Hc, Hr)). apply IH, Hr.
+Qed.
+
+Lemma strip_leading_zeros_length s : (length (strip_leading_zeros s) <= length s)%nat.
+Proof.
+  induction s as [|c r IH]; [reflexivity|]. cbn [strip_leading_zeros].
+  destruct c as [|p]; [reflexivity|]. do 6 (destruct p as [p|p|]; try reflexivity). cbn [length]. lia.
+Qed.
+
+Lemma forallb_rev {A} (f : A -> bool) l : forallb f (rev l) = forallb f l.
+Proof.
+  induction l as [|x r IH]; [reflexivity|]. cbn [rev forallb]. rewrite forallb_app, IH. cbn. rewrite Bool.andb_true_r. apply Bool.andb_comm.
+Qed.
+
+Lemma trim_end_zeros_digits s : forallb is_digit s = true -> forallb is_digit (trim_end_zeros s) = true.
+Proof. intros H. unfold trim_end_zeros. rewrite forallb_rev. apply strip_leading_zeros_digits. now rewrite forallb_rev. Qed.
+
+Lemma trim_end_zeros_length s : (length (trim_end_zeros s) <= length s)%nat.
+Proof. unfold trim_end_zeros. rewrite rev_length. etransitivity; [apply strip_leading_zeros_length|]. now rewrite rev_length. Qed.
+
+Lemma span_digits_spec s : forall d rest, span_digits s = (d, rest) -> forallb is_digit d = true /\ s = d ++ rest.
+Proof.
+  induction s as [|c r IH]; intros d rest; cbn [span_digits].
+  - intros [= <- <-]. split; reflexivity.
+  - destruct (is_digit c) eqn:Ec.
+    + destruct (span_digits r) as [d' rest'] eqn:E. intros [= <- <-].
+      destruct (IH _ _ eq_refl) as [Hd Hs]. split; [cbn [forallb]; now rewrite Ec, Hd | cbn; now rewrite <- Hs].
+    + intros [= <- <-]. split; reflexivity.
+Qed.
+
+Lemma mk_dec_in_range neg i f :
+  forallb is_digit i = true -> forallb is_digit f = true -> (length i <= 19)%nat -> (length f <= 19)%nat ->
+  fval_in_f64_range (mk_dec neg i f).
+Proof.
+  intros Hi Hf Li Lf. unfold mk_dec. cbn [fval_in_f64_range].
+  pose proof (strip_leading_zeros_digits i Hi) as Hi'. pose proof (strip_leading_zeros_length i) as Li'.
+  pose proof (trim_end_zeros_digits f Hf) as Hf'. pose proof (trim_end_zeros_length f) as Lf'.
+  destruct (strip_leading_zeros i) as [|c r] eqn:E.
+  - split; [discriminate|]. split; [reflexivity|]. split; [exact Hf'|]. right. split; [vm_compute; discriminate|].
+    apply digits_val_u64; [exact Hf' | lia].
+  - split; [discriminate|]. split; [exact Hi'|]. split; [exact Hf'|]. right. split; apply digits_val_u64; auto; lia.
+Qed.
+
+Theorem f64_from_str_exact_in_range s v :
+  f64_from_str_exact s = Some v -> (length s <= 19)%nat -> fval_in_f64_range v.
+Proof.
+  unfold f64_from_str_exact. intros H Hl.
+  destruct (split_sign s) as [neg body] eqn:Es.
+  assert (Hb : (length body <= length s)%nat).
+  { unfold split_sign in Es. destruct s as [|c r]; [injection Es as <- <-; reflexivity|].
+    destruct c as [|p]; [injection Es as <- <-; reflexivity|].
+    do 6 (destruct p as [p|p|]; try (injection Es as <- <-; cbn [length]; lia)). }
+  destruct (span_digits body) as [i rest] eqn:Ei.
+  destruct (span_digits_spec _ _ _ Ei) as [Hi Hbody].
+  assert (Li : (length i + length rest = length body)%nat) by (rewrite Hbody, app_length; reflexivity).
+  destruct rest as [|c rest'].
+  - destruct i; [discriminate|]. injection H as <-. apply mk_dec_in_range; [exact Hi | reflexivity | lia | cbn; lia].
+  - destruct c as [|p]; [discriminate|].
+    do 6 (destruct p as [p|p|]; try discriminate).
+    destruct (span_digits rest') as [f rest''] eqn:Ef.
+    destruct (span_digits_spec _ _ _ Ef) as [Hf Hrest].
+    assert (Lf : (length f <= length rest')%nat) by (rewrite Hrest, app_length; lia).
+    cbn [length] in Li.
+    destruct rest''; [|discriminate].
+    assert (Hv : v = mk_dec neg i f) by (destruct i, f; try discriminate; injection H as <-; reflexivity).
+    subst v. apply mk_dec_in_range; [exact Hi | exact Hf | lia | lia].
+Qed.
